@@ -137,9 +137,19 @@ EnvRestart == /\ mpc = "done" /\ runs < MaxRuns /\ runs' = runs + 1 /\ mpc' = "t
 EnvCloseIdle == /\ mpc = "done" /\ ~closing /\ runs < MaxRuns /\ closing' = TRUE
                 /\ mon' = Feed(mon, <<Ev("close", 0, FALSE, FALSE)>>)
                 /\ UNCHANGED <<now, closeCalled, conn, mpc, task, tr, pdone, delay, lastLoss, brk, waiters, natt, nspawn, runs>>
-Next == \/ (/\ (MainStart \/ MainWake1 \/ MainWake2 \/ MainWake2b \/ EnvClose \/ Tick
-               \/ \E k \in Tasks : TaskStart(k) \/ TaskWake(k) \/ TaskFactoryDone(k) \/ EnvLoss(k))
-            /\ UNCHANGED runs)
+\* one top-level disjunct per action, so that TLC's coverage reports every action by name (never-taken actions end up in the evidence)
+AMainStart == (MainStart /\ UNCHANGED runs)
+AMainWake1 == (MainWake1 /\ UNCHANGED runs)
+AMainWake2 == (MainWake2 /\ UNCHANGED runs)
+AMainWake2b == (MainWake2b /\ UNCHANGED runs)
+AEnvClose == (EnvClose /\ UNCHANGED runs)
+ATick == (Tick /\ UNCHANGED runs)
+ATaskStart == \E k \in Tasks : (TaskStart(k) /\ UNCHANGED runs)
+ATaskWake == \E k \in Tasks : (TaskWake(k) /\ UNCHANGED runs)
+ATaskFactoryDone == \E k \in Tasks : (TaskFactoryDone(k) /\ UNCHANGED runs)
+AEnvLoss == \E k \in Tasks : (EnvLoss(k) /\ UNCHANGED runs)
+Next == AMainStart \/ AMainWake1 \/ AMainWake2 \/ AMainWake2b \/ AEnvClose \/ ATick
+        \/ ATaskStart \/ ATaskWake \/ ATaskFactoryDone \/ AEnvLoss
         \/ EnvRestart \/ EnvCloseIdle
 Spec == Init /\ [][Next]_vars
 
@@ -148,5 +158,13 @@ NoContractViolation == mon.bad = <<>>
 BoundedTasks == Pending <= ModelTaskBound
 Quiescent == mpc = "done" /\ \A k \in Tasks : task[k].st \in {"none", "fin"}
 AllClosed == Quiescent => (mon.live = {} /\ \A k \in Tasks : tr[k] # "open")
+\* Witnesses (vacuity guards): invariants TLC must find VIOLATED
+W_ReconnectedAfterLoss == ~(\E j \in Tasks, k \in Tasks : j # k /\ tr[j] = "closed" /\ tr[k] = "open")
+W_CloseDuringAttempt == ~(closing /\ \E k \in Tasks : task[k].st = "factory")
+W_CloseDuringBackOff == ~(closing /\ \E k \in Tasks : task[k].st = "sleep")
+W_BreakerTripped == ~brk
+W_BackOffDoubled == ~(delay >= 2)
+W_SecondRunConnected == ~(runs >= 2 /\ \E k \in Tasks : tr[k] = "open")
+W_ReturnedWithAllClosed == ~(Quiescent /\ \E k \in Tasks : tr[k] = "closed")
 NoOrphan == (Fixed /\ mpc = "done") => \A k \in Tasks : task[k].st \in {"none", "fin"}
 =============================================================================
